@@ -35,8 +35,7 @@ GHOST_ARRAYS = {
 
 TRUSTED = [
     "asyncio.Task contract T1-T5 (create_task returns a fresh not-started task; cancel() requests; a not-started task with a pending request finishes cancelled without running; delivery at the current await; no spurious CancelledError)",
-    "asyncio.Semaphore 3.12.1 as the transition system of DESIGN A.1 (fast path iff not locked(); release grants to the first pending waiter)",
-    "asyncio.Lock.acquire never suspends when the lock is free; asyncio.Event set/is_set/wait",
+    "asyncio.Semaphore / Lock / Event: NOT assumed any more - their transition systems (DESIGN A.1; Lock.acquire never suspends on a free lock nobody waits for; Event set/is_set/wait) are verified from the interpreter's own asyncio/locks.py by the units asyncio.locks.* (which run with every pool check); what remains assumed there is the Future state machine, Task.cancel() cancelling the awaited future, and collections.deque",
     "asyncio.gather contract (normal return => every child done; return_exceptions=False: first child exception or CancelledError of a cancelled child is raised while the others keep running)",
     "cooperative atomicity: one event loop, one OS thread; control leaves a task only at an await that suspends or at a call-out to user code",
     "user code touches the pool only through its public API (U1), calling a coroutine function runs no user code (U3), user code raises only Exception subclasses or CancelledError (U7)",
